@@ -551,6 +551,14 @@ def check_steps(ctx, case, name, eps, states, seq):
         ratio = math.sqrt(float(d2 / n2)) / eps if n2 else float("inf")
         worst = max(worst, ratio)
         kind, arg = seq[k]
+        if U.SIDX[name] is not None:      # hypothesis of rounded_scale_pos: stored scale within gamma (relative) of the exact update
+            se = [common.from_wire(t) for t in toks][U.SIDX[name]]
+            sg = Fraction(states[k + 1][U.SIDX[name]])
+            if not (se > 0 and abs(sg - se) <= Fraction(gamma) * se):
+                ctx.disagree("history", case | {"step": k, "kind": kind},
+                             f"per-step accuracy: stored scale after step {k} ({kind}) is off by {float(abs(sg - se) / se) / eps:.2f} eps "
+                             f"(relative); hypothesis of rounded_scale_pos needs <= {GAMMA_EPS} eps ({name})")
+                break
         if kind in ("mulL", "mulR"):
             yn = math.sqrt(sum(v * v for v in arg[U.QSL[name]]))
             if abs(yn - 1) > gamma:
